@@ -348,6 +348,11 @@ impl<'a, T> ContextBase<'a, T> {
 
     #[doc(hidden)]
     pub fn set_error_path(&self, error: ServerError) -> ServerError {
+        // An error that already carries the path of the (deeper) position it
+        // occurred at keeps it.
+        if !error.path.is_empty() {
+            return error;
+        }
         if let Some(node) = self.path_node {
             let mut path = Vec::new();
             node.for_each(|current_node| {
